@@ -142,3 +142,169 @@ func scanRootLetUsesResetOnly(r *run) {
 	})
 	addScanObl(r, "parseRootLet-uses-reset-only", "parseRootLet uses its incoming parse state only as the argument of psResetTmpCtx in its first statement", okFirst && uses == 1, fmt.Sprintf("first statement is the reset: %v; uses of %s: %d", okFirst, psName, uses))
 }
+
+// scanBinOpTable (C08, C10): the operator table literal binOpMap is exactly the published table:
+// the 13 operators, ranks strictly increasing across the published groups and equal inside a group
+// (order constraints, not the numbers), Go spelling and IsBoolOp per entry, = / <> mapped to
+// frt.OpEqual / frt.OpNotEqual, |> to frt.Pipe.  Also: binOpMap is never assigned or written.
+func scanBinOpTable(r *run) {
+	p := r.eng.ByName["main"]
+	type ent struct {
+		prec int
+		name string
+		isb  bool
+	}
+	tab := map[string]ent{}
+	found := false
+	var problems []string
+	if p == nil {
+		addScanObl(r, "binOpMap-table", "package main loaded", false, "not loaded")
+		return
+	}
+	for _, f := range p.Syntax {
+		for _, d := range f.Decls {
+			gd, ok := d.(*ast.GenDecl)
+			if !ok {
+				continue
+			}
+			for _, sp := range gd.Specs {
+				vs, ok := sp.(*ast.ValueSpec)
+				if !ok || len(vs.Names) != 1 || vs.Names[0].Name != "binOpMap" || len(vs.Values) != 1 {
+					continue
+				}
+				cl, ok := vs.Values[0].(*ast.CompositeLit)
+				if !ok {
+					continue
+				}
+				found = true
+				for _, el := range cl.Elts {
+					kv, ok := el.(*ast.KeyValueExpr)
+					if !ok {
+						problems = append(problems, "entry is not key: value")
+						continue
+					}
+					k, _ := kv.Key.(*ast.Ident)
+					v, _ := kv.Value.(*ast.CompositeLit)
+					if k == nil || v == nil || len(v.Elts) != 3 {
+						problems = append(problems, "entry not of the form New_TokenType_X: {rank, \"go\", bool}")
+						continue
+					}
+					var e ent
+					for i, x := range v.Elts {
+						if kv2, ok := x.(*ast.KeyValueExpr); ok {
+							x = kv2.Value
+						}
+						tv := p.TypesInfo.Types[x]
+						if tv.Value == nil {
+							problems = append(problems, "non-constant table entry for "+k.Name)
+							continue
+						}
+						switch i {
+						case 0:
+							fmt.Sscan(tv.Value.ExactString(), &e.prec)
+						case 1:
+							e.name = strings.Trim(tv.Value.ExactString(), "\"")
+						case 2:
+							e.isb = tv.Value.ExactString() == "true"
+						}
+					}
+					if _, dup := tab[k.Name]; dup {
+						problems = append(problems, "duplicate key "+k.Name)
+					}
+					tab[strings.TrimPrefix(k.Name, "New_TokenType_")] = e
+				}
+			}
+		}
+	}
+	if !found {
+		addScanObl(r, "binOpMap-table", "the operator table literal binOpMap exists", false, "not found")
+		return
+	}
+	groups := [][]string{{"PIPE"}, {"AMPAMP", "BARBAR", "GT", "LT", "GE", "LE"}, {"EQ", "BRACKET"}, {"PLUS", "MINUS"}, {"ASTER", "SLASH"}}
+	spelling := map[string]string{"PIPE": "frt.Pipe", "AMPAMP": "&&", "BARBAR": "||", "GT": ">", "LT": "<", "GE": ">=", "LE": "<=", "EQ": "frt.OpEqual", "BRACKET": "frt.OpNotEqual", "PLUS": "+", "MINUS": "-", "ASTER": "*", "SLASH": "/"}
+	boolop := map[string]bool{"AMPAMP": true, "BARBAR": true, "GT": true, "LT": true, "GE": true, "LE": true, "EQ": true, "BRACKET": true}
+	n := 0
+	prev := -1 << 30
+	for _, g := range groups {
+		rank := 0
+		for i, k := range g {
+			e, ok := tab[k]
+			if !ok {
+				problems = append(problems, "operator "+k+" missing from the table")
+				continue
+			}
+			n++
+			if i == 0 {
+				rank = e.prec
+			} else if e.prec != rank {
+				problems = append(problems, fmt.Sprintf("%s has rank %d, its group has %d (operators of one published group must have equal rank)", k, e.prec, rank))
+			}
+			if e.name != spelling[k] {
+				problems = append(problems, fmt.Sprintf("%s is emitted as %q, published spelling is %q", k, e.name, spelling[k]))
+			}
+			if e.isb != boolop[k] {
+				problems = append(problems, fmt.Sprintf("%s: IsBoolOp is %v, should be %v", k, e.isb, boolop[k]))
+			}
+		}
+		if rank <= prev {
+			problems = append(problems, fmt.Sprintf("group %v has rank %d, not above the looser group's rank %d", g, rank, prev))
+		}
+		prev = rank
+	}
+	if len(tab) != n || n != 13 {
+		problems = append(problems, fmt.Sprintf("the table has %d entries, %d of them published operators (expected exactly the 13 published ones)", len(tab), n))
+	}
+	// binOpMap is never written
+	for _, f := range p.Syntax {
+		if strings.HasSuffix(r.eng.Fset.File(f.Pos()).Name(), "_test.go") {
+			continue
+		}
+		ast.Inspect(f, func(nd ast.Node) bool {
+			if as, ok := nd.(*ast.AssignStmt); ok {
+				for _, l := range as.Lhs {
+					if ix, ok := l.(*ast.IndexExpr); ok {
+						l = ix.X
+					}
+					if sel, ok := l.(*ast.SelectorExpr); ok {
+						l = sel.X
+					}
+					if id, ok := l.(*ast.Ident); ok && (id.Name == "binOpMap" || id.Name == "binOpMapWrapper") {
+						problems = append(problems, "binOpMap is written at "+r.eng.Fset.Position(as.Pos()).String())
+					}
+				}
+			}
+			return true
+		})
+	}
+	addScanObl(r, "binOpMap-table", "binOpMap is exactly the published operator table (13 operators; |> loosest, then && || < > <= >=, then = <>, then + -, then * /; published Go spellings; = and <> through frt.OpEqual / frt.OpNotEqual) and is never written", len(problems) == 0, strings.Join(problems, "; "))
+}
+
+// scanBinOpCallSites (C08): newBinOpCall is called only from parseBinAfter, with the accumulated
+// expression as the left and the freshly parsed operand as the right argument.
+func scanBinOpCallSites(r *run) {
+	var bad []string
+	n := 0
+	forEachCall(r, func(pkgName, fn string, call *ast.CallExpr, callee *types.Func, pos string) {
+		if pkgName != "main" || callee.Name() != "newBinOpCall" {
+			return
+		}
+		n++
+		if fn != "parseBinAfter" {
+			bad = append(bad, "newBinOpCall is also called from "+fn+" at "+pos)
+			return
+		}
+		if len(call.Args) != 5 {
+			bad = append(bad, "unexpected arity at "+pos)
+			return
+		}
+		l, _ := call.Args[3].(*ast.Ident)
+		rr, _ := call.Args[4].(*ast.Ident)
+		if l == nil || rr == nil || l.Name != "cur" || rr.Name != "rhs" {
+			bad = append(bad, "parseBinAfter does not pass (cur, rhs) as (left, right) at "+pos)
+		}
+	})
+	if n == 0 {
+		bad = append(bad, "no call of newBinOpCall found")
+	}
+	addScanObl(r, "newBinOpCall-call-sites", "newBinOpCall is called only from parseBinAfter, with the accumulated expression as left and the new operand as right operand", len(bad) == 0, strings.Join(bad, "; "))
+}
